@@ -29,6 +29,17 @@ type c20Line struct {
 	name, class, text string
 }
 
+// c20Known: stdout text that certain pool lines produce by construction (a
+// printed literal, an echoed literal). Used only for the "response arrives
+// before the next line is read" check, never for comparing whole responses.
+var c20Known = map[string]string{
+	"print-num": "1\n", "print-str": "hi\n", "print-arith": "7\n", "expr-num": "5\n", "expr-arith": "3\n", "expr-str": "abc\n",
+	"expr-true": "true\n", "expr-nil": "nil\n", "rt-mid-line": "1\n", "rt-in-for": "0\n", "multi-var-print": "4\n", "multi-func": "16\n",
+	"multi-for": "0\n1\n", "rt-print-then-fail-in-func": "8\n", "long-print-ascii": c20Long(5000, "x") + "\n", "long-print-bangla": c20Long(1500, "\u0995") + "\n", "long-expr": "1401\n", "huge-print": c20Long(70000, "z") + "\n", "long-rt": c20Long(4090, "y") + "\n", "str-backslash": "a\\b\n",
+}
+
+func c20Long(n int, unit string) string { return strings.Repeat(unit, n) }
+
 var c20Pool = []c20Line{
 	// printing statements
 	{"print-num", "print", KwPrint + " 1;"},
@@ -78,6 +89,17 @@ var c20Pool = []c20Line{
 	// objects and arrays mutated on one line
 	{"multi-object", "multi", KwVar + " o = {a: 1}; o.b = 2; " + KwPrint + " " + FnKeys + "(o);"},
 	{"multi-array", "multi", KwVar + " a = [1]; a = " + FnAppend + "(a, 2); " + KwPrint + " a;"},
+	// a line that printed something and then fails inside a function
+	{"rt-print-then-fail-in-func", "rt-nested", KwFun + " g() { " + KwPrint + " 8; " + KwReturn + " 1 / 0; } " + KwVar + " z = g();"},
+	// an error 300 calls deep: every frame unwinds
+	{"rt-deep-recursion", "rt-deep", KwFun + " r(n) { " + KwIf + " (n > 0) { " + KwReturn + " r(n - 1); } " + KwReturn + " 1 / 0; } r(300);"},
+	{"ok-deep-recursion", "multi", KwFun + " r(n) { " + KwIf + " (n > 0) { " + KwReturn + " r(n - 1); } " + KwReturn + " 7; } " + KwPrint + " r(300);"},
+	// lines longer than a 4096-byte buffer (ASCII and three-byte letters)
+	{"long-print-ascii", "long", KwPrint + " \"" + c20Long(5000, "x") + "\";"},
+	{"long-print-bangla", "long", KwPrint + " \"" + c20Long(1500, "\u0995") + "\";"},
+	{"long-expr", "long", "1" + c20Long(1400, " + 1") + ";"},
+	{"long-rt", "long-rt", KwPrint + " \"" + c20Long(4090, "y") + "\"; nx;"},
+	{"huge-print", "long", KwPrint + " \"" + c20Long(70000, "z") + "\";"},
 	// silent statements
 	{"silent-var", "silent", KwVar + " y = 5;"},
 	{"silent-block", "silent", "{ }"},
@@ -183,6 +205,38 @@ func c20Systematic(tier string) []*Case {
 		for _, b := range c20Pool {
 			base := replCfg(c20SessionStdin([]string{a.text, b.text}))
 			out = append(out, c20Case([]c20Line{a, b}, []sim.Config{withDelivery(base, "all")}, []string{"all"}, "pair"))
+		}
+	}
+	// the same failing line many times, then lines that use built-ins and user functions:
+	// whatever a failing line leaves behind must not accumulate
+	probes := []c20Line{}
+	for _, l := range c20Pool {
+		switch l.name {
+		case "print-builtin", "expr-sqrt", "use-max", "multi-func", "ok-deep-recursion", "print-num":
+			probes = append(probes, l)
+		}
+	}
+	for _, a := range c20Pool {
+		failing := strings.HasPrefix(a.class, "rt") || strings.HasPrefix(a.class, "lex") || strings.HasPrefix(a.class, "syn") || strings.HasPrefix(a.class, "assign") || a.class == "long-rt"
+		if !failing {
+			continue
+		}
+		for _, k := range []int{4, 40} {
+			if k == 40 && tier != "thorough" && a.class != "rt-deep" && a.class != "rt-nested" {
+				continue
+			}
+			var sess []c20Line
+			for i := 0; i < k; i++ {
+				sess = append(sess, a)
+			}
+			sess = append(sess, probes...)
+			var ls []string
+			for _, l := range sess {
+				ls = append(ls, l.text)
+			}
+			base := replCfg(c20SessionStdin(ls))
+			base.Budget = 30000000
+			out = append(out, c20Case(sess, []sim.Config{withDelivery(base, "all")}, []string{"all"}, "repeat"))
 		}
 	}
 	// echo
@@ -415,16 +469,16 @@ func c20Eval(cs *Case, ctx *EvalCtx) []Violation {
 		o := obs[ax.FreshOf[i]]
 		sig := "line:" + ax.Names[i]
 		if o.Res.Panic != "" {
-			add(ax.FreshOf[i], "session-ended", "by:"+ax.Names[i], fmt.Sprintf("line %q ended a fresh session with a panic: %s", ax.Lines[i], o.Res.Panic))
+			add(ax.FreshOf[i], "session-ended", "by:"+ax.Names[i], fmt.Sprintf("line %q ended a fresh session with a panic: %s", clip(ax.Lines[i]), o.Res.Panic))
 			continue
 		}
 		if o.Res.Budget {
-			add(ax.FreshOf[i], "never-returns", "by:"+ax.Names[i], fmt.Sprintf("line %q never returns (step budget exceeded)", ax.Lines[i]))
+			add(ax.FreshOf[i], "never-returns", "by:"+ax.Names[i], fmt.Sprintf("line %q never returns (step budget exceeded)", clip(ax.Lines[i])))
 			continue
 		}
 		sg, f, _ := c20Split(o.Res, 1)
 		if !f[0] {
-			add(ax.FreshOf[i], "session-ended", "by:"+ax.Names[i], fmt.Sprintf("after line %q the next line got no response (exit=%d returned=%v)", ax.Lines[i], o.Res.Exit, o.Res.Returned))
+			add(ax.FreshOf[i], "session-ended", "by:"+ax.Names[i], fmt.Sprintf("after line %q the next line got no response (exit=%d returned=%v)", clip(ax.Lines[i]), o.Res.Exit, o.Res.Returned))
 			continue
 		}
 		if o.ExitStatus() != 0 {
@@ -432,6 +486,25 @@ func c20Eval(cs *Case, ctx *EvalCtx) []Violation {
 		}
 		fresh[i] = sg[0]
 		freshOK[i] = true
+		// the response is complete before the next line is read: everything the line
+		// prints by construction must be on stdout before the READ that delivers the
+		// marker line (the fresh session uses line-at-a-time delivery)
+		if want, ok := c20Known[ax.Names[i]]; ok && want != "" {
+			var before strings.Builder
+			seenRead := false
+			for _, e := range o.Res.Events {
+				if e.Kind == "READ" && strings.Contains(e.Data, "#0#") {
+					seenRead = true
+					break
+				}
+				if e.Kind == "OUT" {
+					before.WriteString(e.Data)
+				}
+			}
+			if seenRead && !strings.Contains(before.String(), want) {
+				add(ax.FreshOf[i], "response-late", "line:"+ax.Names[i], fmt.Sprintf("line %q must have printed %q before the next line is read; stdout up to that read was %q", clip(ax.Lines[i]), clip(want), clip(before.String())))
+			}
+		}
 	}
 	// the session under each delivery
 	var firstSegs []c20Seg
@@ -508,4 +581,11 @@ func c20Eval(cs *Case, ctx *EvalCtx) []Violation {
 		st.Count("session_lines", int64(n))
 	}
 	return vs
+}
+
+func clip(s string) string {
+	if len(s) > 160 {
+		return s[:80] + "..." + s[len(s)-60:]
+	}
+	return s
 }
